@@ -27,6 +27,7 @@ enum {
   OP_PTRCTOR = 13,  // a=src b=dst         destroy dst, construct from marked_ptr of src
   OP_SELFASSIGN = 14, // a=slot c=0 copy / 1 move
   OP_RESET2 = 15,   // a=slot              reset twice
+  OP_REMARK = 16,   // a=cell              flip the mark bit of the cell, same object (CAS from the current value)
   OP_NOTE_LEFT = 40, // teardown note: a=#retired not destroyed
 };
 
@@ -436,6 +437,23 @@ struct World : IWorld {
           op_end(ok, v);
           break;
         }
+        case OP_REMARK: {
+          op_begin(op.kind, a, 0, 0, lf);
+          Guard tmp;
+          try {
+            tmp.acquire(cells[a], std::memory_order_acquire);
+          } catch (const std::runtime_error&) {
+            on_exhausted(t, -1, 1);
+            op_end(2);
+            break;
+          }
+          bool ok = false;
+          MPtr cur = tmp;
+          MPtr nv(cur.get(), cur.mark() ^ 1u);
+          if (tmp.get()) ok = cells[a].compare_exchange_strong(cur, nv, std::memory_order_acq_rel, std::memory_order_relaxed);
+          op_end(ok, val_of(nv), val_of(MPtr(tmp)));
+          break;
+        }
         case OP_REGION_ENTER: {
           op_begin(op.kind, 0, 0, 0, lf);
           if (t.regions < 2) {
@@ -547,8 +565,8 @@ public:
   const char* config_name(int i) const override { return cfgs[i].tr.name; }
   const char* op_name(int k) const override {
     static const char* n[] = {"?", "publish", "read", "read_if_equal", "copy", "move", "copy_ctor", "move_ctor", "swap", "reset",
-                              "unlink", "region_enter", "region_leave", "ptr_ctor", "self_assign", "reset2"};
-    if (k >= 1 && k <= 15) return n[k];
+                              "unlink", "region_enter", "region_leave", "ptr_ctor", "self_assign", "reset2", "remark"};
+    if (k >= 1 && k <= 16) return n[k];
     if (k == OP_NOTE_LEFT) return "census";
     return "?";
   }
@@ -578,7 +596,8 @@ public:
         else if (r < 94) o = Op{g.rng.chance(20) ? OP_RESET2 : OP_RESET, s, 0, 0};
         else o = Op{OP_UNLINK, cell, 0, 0};
       } else if (c15) {
-        if (r < 14) o = Op{OP_PUBLISH, cell, 0, 0};
+        if (r < 10) o = Op{OP_PUBLISH, cell, 0, 0};
+        else if (r < 16) o = Op{OP_REMARK, cell, 0, 0};
         else if (r < 34) o = Op{OP_READ, cell, s, (int64_t)g.rng.below(2)};
         else if (r < 50) o = Op{OP_READ_IF, cell, s, (int64_t)g.rng.below(3)};
         else if (r < 57) o = Op{OP_COPY, s, s2, 0};
@@ -591,7 +610,8 @@ public:
         else if (r < 92) o = Op{g.rng.chance(30) ? OP_RESET2 : OP_RESET, s, 0, 0};
         else o = Op{OP_UNLINK, cell, 0, 0};
       } else {
-        if (r < 20) o = Op{OP_PUBLISH, cell, 0, 0};
+        if (r < 18) o = Op{OP_PUBLISH, cell, 0, 0};
+        else if (r < 21) o = Op{OP_REMARK, cell, 0, 0};
         else if (r < 48) o = Op{OP_READ, cell, s, (int64_t)g.rng.below(2)};
         else if (r < 54) o = Op{OP_READ_IF, cell, s, (int64_t)g.rng.below(3)};
         else if (r < 58) o = Op{OP_COPY, s, s2, 0};
@@ -736,6 +756,7 @@ public:
     bool step(State& s, const OpRec& o) const {
       switch (o.kind) {
         case OP_PUBLISH:
+        case OP_REMARK:
           if (o.status == 2) return true;
           if (o.status == 1) {
             if (s[o.a] != o.r1) return false;
@@ -777,7 +798,7 @@ public:
       if (o.status < 0) continue;
       sh = (sh ^ (uint64_t)(o.kind * 131 + o.status * 7 + o.r0)) * 1099511628211ULL;
       if (o.kind == OP_READ || o.kind == OP_READ_IF) ops.push_back(i);
-      else if ((o.kind == OP_PUBLISH || o.kind == OP_UNLINK) && o.status == 1) ops.push_back(i);
+      else if ((o.kind == OP_PUBLISH || o.kind == OP_UNLINK || o.kind == OP_REMARK) && o.status == 1) ops.push_back(i);
     }
     c.state_hash = sh;
     RegModel m;
